@@ -8,6 +8,7 @@ result, result array.
 -/
 import DarsiaModel.Basic
 import DarsiaModel.Pipeline
+import DarsiaModel.Persist
 open Darsia Darsia.Pipeline
 
 def chunk (n : Nat) (xs : List Rat) : Nat → List (List Rat)
@@ -49,6 +50,46 @@ def pKind : P Kind := do
 def kindShow : Kind → String
   | .image => "Image" | .scalarImage => "ScalarImage" | .opticalImage => "OpticalImage"
 
+/-! result metadata: the constructors of `DarsiaModel.Persist` on symbolic values -/
+
+inductive Sym | kw (k : Persist.Key) | c (name : String)
+  deriving DecidableEq
+
+def isC (n : String) : Sym → Bool | .c m => m == n | _ => false
+
+def symSem : Persist.Sem Sym :=
+  { none := .c "None", two := .c "2", ij := .c "ij", tru := .c "True", fls := .c "False", rgb := .c "RGB",
+    isNone := isC "None", truthy := isC "True", up := id,
+    defaultIndexing := fun _ => .c "ijk", defaultDims := fun _ => .c "ones",
+    applyHWD := fun d h w z => match h, w, z with | none, none, none => d | _, _, _ => .c "hwd",
+    defaultOrigin := fun _ _ _ => .c "origin", defaultDate := fun _ => .c "nodate",
+    defaultRef := fun _ => .c "ref", deriveTime := fun _ _ _ => .c "time" }
+
+def baseKeyNames : List (Persist.Key × String) :=
+  [(.space_dim, "space_dim"), (.indexing, "indexing"), (.dimensions, "dimensions"), (.origin, "origin"), (.series, "series"),
+   (.scalar, "scalar"), (.date, "date"), (.reference_date, "reference_date"), (.time, "time"), (.name, "name")]
+
+def keysOf : Persist.Cls → List Persist.Key
+  | .opticalImage => baseKeyNames.map (·.1) ++ [.color_space]
+  | _ => baseKeyNames.map (·.1)
+
+def clsOf : Kind → Persist.Cls
+  | .image => .image | .scalarImage => .scalarImage | .opticalImage => .opticalImage
+
+/-- attributes of a constructed probe of the class (forced flags as the constructors leave them) -/
+def probeAttrs (c : Persist.Cls) (k : Persist.Key) : Sym :=
+  match c, k with
+  | .opticalImage, .space_dim => .c "2" | .opticalImage, .indexing => .c "ij" | .opticalImage, .scalar => .c "False"
+  | .scalarImage, .scalar => .c "True"
+  | _, k => .kw k
+
+/-- per physical metadata key: does the result carry the probe's value (`same`), `True`, or something else -/
+def metaLine (probeKind resKind : Kind) : String :=
+  let a := probeAttrs (clsOf probeKind)
+  let r := Persist.construct symSem (clsOf resKind) (Persist.metadataOf keysOf (clsOf probeKind) a)
+  " ".intercalate (baseKeyNames.map fun (k, n) =>
+    n ++ "=" ++ (if r k = a k then "same" else if r k = Sym.c "True" then "True" else "other"))
+
 def scribbling (s : Option Stage) : Option Stage :=
   s.map fun f => fun a => ((f a).1, { a with px := a.px.map fun p => p.map fun _ => 7 })
 
@@ -73,7 +114,7 @@ def pCall : P String := do
   let ts := ";".intercalate (tr.map fun p => p.1.show ++ "=" ++ showArr p.2)
   let showO := fun (a : Option Arr) => match a with | some a => showArr a | none => "none"
   let outOp := showO (op.1[op.2]?)
-  pure s!"{ts}|{kindShow res.kind}|{showArr res.out}|{outOp}|{showO (op.1[0]?)}|{if st.base.isSome then showO (op.1[1]?) else "none"}"
+  pure s!"{ts}|{kindShow res.kind}|{showArr res.out}|{outOp}|{showO (op.1[0]?)}|{if st.base.isSome then showO (op.1[1]?) else "none"}|{metaLine kind res.kind}"
 
 /-- `diffint <bits> <opt> <n> probe... <n> base...` → promoted differences, exact -/
 def pDiffInt : P String := do
